@@ -1,34 +1,40 @@
-(* How the models treat every potential panic site of the parse path (for C03).
+(* How the models treat the potential panic sites of the parse path (for C03).
 
-   [PanicSites.sites] (Gen/PanicSites.v, regenerated from /repo/src on every run of the C03 check by
-   gen/gen_panics.py and pinned by C03_panic_inventory) lists every panic!/unreachable!/assert*!/
-   debug_assert*! invocation, every .unwrap() / .expect(..), every index or slice expression, every std
-   call that panics on a bad argument and every compound integer update / subtraction of the non-test
-   code of src/lexer, src/parser, src/analysis, src/text.rs, src/span.rs, src/located.rs, src/error.rs
-   and src/lib.rs.  [panic_table] gives, for each entry, in the same order:
+   Gen/PanicSites.v is regenerated from /repo/src on every run of the C03 check (gen/gen_panics.py).  PINNED
+   (C03_panic_inventory) is [PanicSites.panic_keys]: for every (file stem, enclosing fn) of the non-test code of
+   src/lexer, src/parser, src/analysis, src/text.rs, src/span.rs, src/located.rs, src/error.rs, src/lib.rs the
+   NUMBER of sites of every strong kind - each panic!/unreachable!/todo!/unimplemented!/assert*!/debug_assert*!
+   macro by name, .unwrap(), .expect(..), and std calls that panic on a bad argument by callee - without any
+   expression text, so that rewriting an expression is harmless while a new unwrap/assert/panic is not.
+   [group_table] gives, for each pinned group, one treatment per site of the group (in source order):
 
-     Site name n      the site is an explicit [Panic n] outcome of the models: [name] is the
-                      `Definition site_*` (or the literal `Panic n`) of Model/PText.v, Model/Parser.v or
-                      Model/Analysis.v that stands for it; that it is never reached is what
-                      C03_events_total / C03_analyse_total / C03_parse_total prove;
-     Unreachable why  the model has no outcome for it: the translation discharges it structurally (a
-                      match on a list where the code indexes after a length check, one record where the code
-                      keeps two parallel ones, ...); [why] states the reason;
+     Site name n      the site is an explicit [Panic n] outcome of the models: [name] is the `Definition site_*`
+                      (or the literal `Panic n`) of Model/PText.v, Model/Parser.v or Model/Analysis.v that stands
+                      for it; that it is never reached is what C03_events_total / C03_analyse_total /
+                      C03_parse_total prove;
+     Unreachable why  the model has no outcome for it: the translation discharges it structurally (a match on a
+                      list where the code unwraps after a length check, one record where the code keeps two
+                      parallel ones, ...); [why] states the reason;
      Unmodelled why   the enclosing function is outside the models (an oracle, a dropped feature, report
                       rendering): only the run-time monitor (catch_unwind around every consumer) and the
                       correspondence runs exercise it.
 
-   The [why] strings are DOCUMENTATION of a modelling decision read off the source by hand; nothing here
-   proves them (what ties the models to the code is the correspondence run of every check).  What IS
-   checked, in Properties/C03.v:
-     C03_panic_table_covers      map fst panic_table = PanicSites.sites: every site of the source is
-                                 accounted for, none invented, order kept;
+   The [why] strings are DOCUMENTATION of a modelling decision read off the source by hand; nothing here proves
+   them (what ties the models to the code is the correspondence run of every check).  What IS checked, in
+   Properties/C03.v:
+     C03_panic_table_covers      map fst group_table = PanicSites.panic_keys, and every group has exactly as many
+                                 treatments as sites: every pinned site of the source is accounted for;
      C03_table_sites_exist       every [Site name n] names a site the models really define, with its value
-                                 ([PanicSites.model_sites] is read from the Model/*.v files by the generator
-                                 and refers to the constants themselves);
-     C03_model_sites_accounted   conversely every site of the models is the image of at least one entry of
-                                 the inventory, or is listed in [model_only] with the reason it has no
-                                 counterpart in the source. *)
+                                 ([PanicSites.model_sites] is read from the Model/*.v files by the generator and
+                                 refers to the constants themselves);
+     C03_model_sites_accounted   conversely every site of the models is the image of a pinned site, or is listed
+                                 in [unpinned_sites] (it stands for an index / arithmetic expression, which is not
+                                 pinned) or in [model_only] (no counterpart in the source).
+
+   Index / slice expressions (KIndex) and integer updates / subtractions (KArith) are NOT pinned: a token-level
+   list of them changes with every harmless rewrite; their panics are covered by the model's own sites
+   ([unpinned_sites]) and by the catch_unwind monitor.  [weak_table] is a SNAPSHOT of how those entries of
+   [PanicSites.sites] were read when this file was written: documentation only, tied to nothing. *)
 From Coq Require Import List String NArith Bool.
 From CL Require Import Gen.PanicSites.
 From CL Require Model.Lexer Model.PText Model.Parser Model.Analysis.
@@ -40,85 +46,285 @@ Inductive treatment :=
 | Unreachable (why : string)
 | Unmodelled (why : string).
 
-Definition panic_table : list (site * treatment) := [
+Definition group_table : list ((string * string * string * nat) * list treatment) := [
+  (("lexer/mod", "block_comment", "debug_assert!", 1%nat),
+   [Unmodelled "lexer debug assertion about the character just consumed: Model/Lexer.v has no panic outcome (lex_at is total: C03_lexer_total), the assertion restates the dispatch of advance_token; debug builds are exercised by the correspondence and the monitor"]);
+  (("lexer/mod", "line_comment", "debug_assert!", 1%nat),
+   [Unmodelled "lexer debug assertion about the character just consumed: Model/Lexer.v has no panic outcome (lex_at is total: C03_lexer_total), the assertion restates the dispatch of advance_token; debug builds are exercised by the correspondence and the monitor"]);
+  (("lexer/mod", "number", "debug_assert!", 1%nat),
+   [Unmodelled "lexer debug assertion about the character just consumed: Model/Lexer.v has no panic outcome (lex_at is total: C03_lexer_total), the assertion restates the dispatch of advance_token; debug builds are exercised by the correspondence and the monitor"]);
+  (("lexer/mod", "whitespace", "debug_assert!", 1%nat),
+   [Unmodelled "lexer debug assertion about the character just consumed: Model/Lexer.v has no panic outcome (lex_at is total: C03_lexer_total), the assertion restates the dispatch of advance_token; debug builds are exercised by the correspondence and the monitor"]);
+  (("lexer/mod", "word", "debug_assert!", 1%nat),
+   [Unmodelled "lexer debug assertion about the character just consumed: Model/Lexer.v has no panic outcome (lex_at is total: C03_lexer_total), the assertion restates the dispatch of advance_token; debug builds are exercised by the correspondence and the monitor"]);
+  (("parser/block_parser", "base_offset", "unwrap", 1%nat),
+   [Unreachable "BlockParser::new asserted a non-empty token slice (site_bp_new) and tokens is never reassigned"]);
+  (("parser/block_parser", "bump", "assert_eq!", 1%nat),
+   [Site "Parser.site_bump" Parser.site_bump]);
+  (("parser/block_parser", "bump_any", "expect", 1%nat),
+   [Site "Parser.site_bump_any" Parser.site_bump_any]);
+  (("parser/block_parser", "error", "debug_assert!", 1%nat),
+   [Unreachable "every caller passes a diagnostic built by error!(..) (severity Error); the model keeps errors and warnings in one event list by code"]);
+  (("parser/block_parser", "finish", "assert_eq!", 1%nat),
+   [Site "Parser.site_bp_finish" Parser.site_bp_finish]);
+  (("parser/block_parser", "macro_rules!debug_assert_adjacent", "call windows", 1%nat),
+   [Unreachable "debug_assert_adjacent: the token slices handed to BlockParser are contiguous sub-slices of the lexer's tiling (C04 token adjacency); the model keeps tokens as a list with their spans and does not re-check adjacency"]);
+  (("parser/block_parser", "macro_rules!debug_assert_adjacent", "debug_assert!", 1%nat),
+   [Unreachable "debug_assert_adjacent: the token slices handed to BlockParser are contiguous sub-slices of the lexer's tiling (C04 token adjacency); the model keeps tokens as a list with their spans and does not re-check adjacency"]);
+  (("parser/block_parser", "new", "assert!", 1%nat),
+   [Site "Parser.site_bp_new" Parser.site_bp_new]);
+  (("parser/block_parser", "new", "debug_assert!", 1%nat),
+   [Unreachable "bounds of the block's tokens: token spans tile the input (C04), first/last exist after the assert! above"]);
+  (("parser/block_parser", "new", "debug_assert_adjacent!", 1%nat),
+   [Unreachable "debug_assert_adjacent: the token slices handed to BlockParser are contiguous sub-slices of the lexer's tiling (C04 token adjacency); the model keeps tokens as a list with their spans and does not re-check adjacency"]);
+  (("parser/block_parser", "new", "unwrap", 2%nat),
+   [Unreachable "inside the debug_assert! that follows assert!(!tokens.is_empty()) in the same fn";
+    Unreachable "inside the debug_assert! that follows assert!(!tokens.is_empty()) in the same fn"]);
+  (("parser/block_parser", "parsed", "call split_at", 1%nat),
+   [Unreachable "split_at(self.current): current <= tokens.len() is the invariant of next_token/until/consume_while/consume_rest; the model state holds the rest of the list (b_rest)"]);
+  (("parser/block_parser", "rest", "call split_at", 1%nat),
+   [Unreachable "split_at(self.current): current <= tokens.len() is the invariant of next_token/until/consume_while/consume_rest; the model state holds the rest of the list (b_rest)"]);
+  (("parser/block_parser", "slice_str", "debug_assert_adjacent!", 1%nat),
+   [Unreachable "debug_assert_adjacent: the token slices handed to BlockParser are contiguous sub-slices of the lexer's tiling (C04 token adjacency); the model keeps tokens as a list with their spans and does not re-check adjacency"]);
+  (("parser/block_parser", "slice_str", "unwrap", 2%nat),
+   [Unreachable "guarded by the is_empty return just above in the same fn";
+    Unreachable "guarded by the is_empty return just above in the same fn"]);
+  (("parser/block_parser", "text", "assert_eq!", 1%nat),
+   [Site "Parser.site_text_offset" Parser.site_text_offset]);
+  (("parser/block_parser", "text", "debug_assert!", 1%nat),
+   [Site "Parser.site_escaped_len" Parser.site_escaped_len]);
+  (("parser/block_parser", "text", "debug_assert_adjacent!", 1%nat),
+   [Unreachable "debug_assert_adjacent: the token slices handed to BlockParser are contiguous sub-slices of the lexer's tiling (C04 token adjacency); the model keeps tokens as a list with their spans and does not re-check adjacency"]);
+  (("parser/block_parser", "warn", "debug_assert!", 1%nat),
+   [Unreachable "every caller passes a diagnostic built by warning!(..); the model keeps errors and warnings in one event list by code"]);
+  (("parser/mod", "parse_block", "unreachable!", 1%nat),
+   [Unreachable "let-else on the event metadata_entry just built: it only returns Event::Metadata; the model's metadata_entry returns the key/value pair directly"]);
+  (("parser/mod", "parse_multiline_block", "debug_assert!", 1%nat),
+   [Unreachable "the block splitter trims trailing newline tokens (next_block) before the block parser sees them: Proofs/ParserSplit.v; the model does not re-check"]);
+  (("parser/mod", "tokens_span", "debug_assert!", 1%nat),
+   [Unreachable "tokens_span is only called on bp.tokens() / non-empty consumed slices (site_bp_new guarantees a non-empty block); the model computes spans from non-empty lists, the empty case is a match arm returning the offset"]);
+  (("parser/mod", "tokens_span", "unwrap", 2%nat),
+   [Unreachable "tokens_span is only called on bp.tokens() / non-empty consumed slices (site_bp_new guarantees a non-empty block); the model computes spans from non-empty lists, the empty case is a match arm returning the offset";
+    Unreachable "tokens_span is only called on bp.tokens() / non-empty consumed slices (site_bp_new guarantees a non-empty block); the model computes spans from non-empty lists, the empty case is a match arm returning the offset"]);
+  (("parser/quantity", "int", "assert_eq!", 1%nat),
+   [Unreachable "int() is called from numeric_value's match arms on slices whose pattern fixes the kind T![int]; the model matches on the kind in the same place"]);
+  (("parser/quantity", "macro_rules!unwrap_numeric", "unreachable!", 1%nat),
+   [Unreachable "numeric_value returns Some(r.map(Value::Number)): an Ok is always Value::Number; the model's numeric_value returns a number"]);
+  (("parser/quantity", "mixed_num", "unreachable!", 1%nat),
+   [Unreachable "frac() only builds Number::Fraction; the model's frac returns numerator and denominator"]);
+  (("parser/quantity", "parse_advanced_quantity", "unwrap", 5%nat),
+   [Unreachable "right operand of `is_empty() ||`: the slice is non-empty";
+    Site "Parser.site_adv_rposition" Parser.site_adv_rposition;
+    Unreachable "value_tokens[..=end_pos] has at least one element";
+    Unreachable "right operand of `is_empty() ||`: the slice is non-empty";
+    Unreachable "guarded by the `unit_tokens.is_empty()` return above in the same fn"]);
+  (("parser/quantity", "parse_quantity", "assert!", 1%nat),
+   [Site "Parser.site_qty_empty" Parser.site_qty_empty]);
+  (("parser/quantity", "parse_regular_quantity", "unwrap", 1%nat),
+   [Unreachable "unit_separator and unit come from the same Option by unzip(): Some together, and this is inside `if let Some(unit_text) = &unit`"]);
+  (("parser/quantity", "range_value", "call split_at", 1%nat),
+   [Unreachable "mid is a position of tokens (position()?): split_at(mid) is in bounds"]);
+  (("parser/quantity", "range_value", "unwrap", 1%nat),
+   [Unreachable "end starts at the `-` token found by position(): non-empty"]);
+  (("parser/quantity", "trim_tokens", "unwrap", 1%nat),
+   [Unreachable "position() found an element satisfying the same predicate, so rposition() does too"]);
+  (("parser/step", "check_alias", "assert_ne!", 2%nat),
+   [Unreachable "container is a &'static str constant at every call site: timer() passes TIMER, cookware() passes COOKWARE only to functions that do not assert it; the model has one function per container";
+    Unreachable "container is a &'static str constant at every call site: timer() passes TIMER, cookware() passes COOKWARE only to functions that do not assert it; the model has one function per container"]);
+  (("parser/step", "check_alias", "unwrap", 1%nat),
+   [Unreachable "name_tokens holds the element at sep: non-empty"]);
+  (("parser/step", "check_intermediate_data", "assert_ne!", 1%nat),
+   [Unreachable "container is a &'static str constant at every call site: timer() passes TIMER, cookware() passes COOKWARE only to functions that do not assert it; the model has one function per container"]);
+  (("parser/step", "check_modifiers", "assert_ne!", 2%nat),
+   [Unreachable "container is a &'static str constant at every call site: timer() passes TIMER, cookware() passes COOKWARE only to functions that do not assert it; the model has one function per container";
+    Unreachable "container is a &'static str constant at every call site: timer() passes TIMER, cookware() passes COOKWARE only to functions that do not assert it; the model has one function per container"]);
+  (("parser/step", "check_note", "assert!", 1%nat),
+   [Unreachable "the closure passed to with_recover ends in None::<()> on every path: with_recover returns it; inside it bump(T![')']) is Parser.site_bump (Model/Parser.v check_note)"]);
+  (("parser/step", "check_note", "assert_ne!", 2%nat),
+   [Unreachable "container is a &'static str constant at every call site: timer() passes TIMER, cookware() passes COOKWARE only to functions that do not assert it; the model has one function per container";
+    Unreachable "container is a &'static str constant at every call site: timer() passes TIMER, cookware() passes COOKWARE only to functions that do not assert it; the model has one function per container"]);
+  (("parser/step", "cookware", "expect", 1%nat),
+   [Site "Parser.site_recipe_tok" Parser.site_recipe_tok]);
+  (("parser/step", "parse_alias", "call split_at", 1%nat),
+   [Unreachable "alias_sep is a position of tokens (position())"]);
+  (("parser/step", "parse_alias", "unwrap", 1%nat),
+   [Unreachable "alias_tokens starts at the `|` token found by position(): non-empty"]);
+  (("parser/step", "parse_intermediate_ref_data", "expect", 1%nat),
+   [Site "Parser.site_inter_paren" Parser.site_inter_paren]);
+  (("parser/step", "parse_modifiers", "panic!", 1%nat),
+   [Site "Parser.site_mod_token" Parser.site_mod_token]);
+  (("analysis/event_consumer", "cookware", "assert!", 1%nat),
+   [Site "Analysis.site_assert_is_definition" Analysis.site_assert_is_definition]);
+  (("analysis/event_consumer", "cookware", "expect", 1%nat),
+   [Unreachable "is_defined_in_step() is Some for a definition, and assert!(definition.relation.is_definition()) precedes it in the same branch"]);
+  (("analysis/event_consumer", "cookware", "unwrap", 3%nat),
+   [Unreachable "located_* mirrors the component it was built from field by field (Located<..> of the same event): quantity/unit is Some there exactly when the value just matched is Some; the model keeps one record per component, so there is no second Option";
+    Unreachable "located_* mirrors the component it was built from field by field (Located<..> of the same event): quantity/unit is Some there exactly when the value just matched is Some; the model keeps one record per component, so there is no second Option";
+    Unreachable "inside the `if let Some(..) = ..zip(definition.quantity)`: the definition has a quantity and its location record mirrors it"]);
+  (("analysis/event_consumer", "find_inline_quantity", "call split_at", 1%nat),
+   [Unmodelled "find_inline_quantity and its helpers are the oracle find_iq of Model/Analysis.v (hypothesis iq_shrinks); exercised by the correspondence of C06 and the monitor only"]);
+  (("analysis/event_consumer", "find_inline_quantity", "debug_assert!", 1%nat),
+   [Unmodelled "find_inline_quantity and its helpers are the oracle find_iq of Model/Analysis.v (hypothesis iq_shrinks); exercised by the correspondence of C06 and the monitor only"]);
+  (("analysis/event_consumer", "in_step", "panic!", 1%nat),
+   [Site "Analysis.Panic_547" 547%N]);
+  (("analysis/event_consumer", "in_text", "assert_eq!", 1%nat),
+   [Site "Analysis.site_nontext_in_text" Analysis.site_nontext_in_text]);
+  (("analysis/event_consumer", "in_text", "panic!", 1%nat),
+   [Site "Analysis.Panic_572" 572%N]);
+  (("analysis/event_consumer", "in_text", "unreachable!", 1%nat),
+   [Unreachable "inner match on the same ev inside the arm `Ingredient | Cookware | Timer`: the model's comp takes the span of the three cases directly"]);
+  (("analysis/event_consumer", "ingredient", "assert!", 3%nat),
+   [Site "Analysis.site_inter_without_ref" Analysis.site_inter_without_ref;
+    Unreachable "else-branch of `if let Some(inter_data) = ingredient.intermediate_data`: it is None here (the model matches on it once)";
+    Site "Analysis.site_assert_is_definition" Analysis.site_assert_is_definition]);
+  (("analysis/event_consumer", "ingredient", "expect", 1%nat),
+   [Unreachable "is_defined_in_step() is Some for a definition, and assert!(definition.relation.is_definition()) (site_assert_is_definition) precedes it in the same branch"]);
+  (("analysis/event_consumer", "ingredient", "unwrap", 5%nat),
+   [Unreachable "locations.ingredients[index].quantity is Some exactly when content.ingredients[index].quantity is (filter_map above kept only those); the two tables are pushed together";
+    Unreachable "located_* mirrors the component it was built from field by field (Located<..> of the same event): quantity/unit is Some there exactly when the value just matched is Some; the model keeps one record per component, so there is no second Option";
+    Unreachable "second operand of `ingredient.quantity.is_some() && ..` in the same condition";
+    Unreachable "located_* mirrors the component it was built from field by field (Located<..> of the same event): quantity/unit is Some there exactly when the value just matched is Some; the model keeps one record per component, so there is no second Option";
+    Unreachable "inside `if let Some((ref_q, def_q)) = new_igr.quantity.zip(definition.quantity)`: the definition has a quantity and its location record mirrors it"]);
+  (("analysis/event_consumer", "metadata", "call insert", 3%nat),
+   [Unmodelled "metadata map, standard-key checks and their warnings are dropped by Model/Analysis.v (header: Dropped); exercised by the monitor under catch_unwind only";
+    Unmodelled "metadata map, standard-key checks and their warnings are dropped by Model/Analysis.v (header: Dropped); exercised by the monitor under catch_unwind only";
+    Unmodelled "metadata map, standard-key checks and their warnings are dropped by Model/Analysis.v (header: Dropped); exercised by the monitor under catch_unwind only"]);
+  (("analysis/event_consumer", "metadata", "unwrap", 1%nat),
+   [Unmodelled "metadata map, standard-key checks and their warnings are dropped by Model/Analysis.v (header: Dropped); exercised by the monitor under catch_unwind only"]);
+  (("analysis/event_consumer", "parse_events", "assert!", 1%nat),
+   [Site "Analysis.site_end_kind_text" Analysis.site_end_kind_text]);
+  (("analysis/event_consumer", "parse_events", "assert_eq!", 1%nat),
+   [Site "Analysis.site_end_kind_step" Analysis.site_end_kind_step]);
+  (("analysis/event_consumer", "parse_events", "panic!", 2%nat),
+   [Site "Analysis.site_end_without_start" Analysis.site_end_without_start;
+    Site "Analysis.site_content_outside_block" Analysis.site_content_outside_block]);
+  (("analysis/event_consumer", "parse_reference", "unwrap", 1%nat),
+   [Unreachable "the name starts with ./ or ../ (or the backslash forms, replaced by /): split('/') yields at least two items, one is left after skip(1); the model splits the same way"]);
+  (("analysis/event_consumer", "process_frontmatter", "unwrap", 1%nat),
+   [Unmodelled "metadata map, standard-key checks and their warnings are dropped by Model/Analysis.v (header: Dropped); exercised by the monitor under catch_unwind only"]);
+  (("analysis/event_consumer", "resolve_intermediate_ref", "assert!", 1%nat),
+   [Site "Analysis.site_inter_negative" Analysis.site_inter_negative]);
+  (("analysis/event_consumer", "resolve_intermediate_ref", "unwrap", 2%nat),
+   [Unreachable "guarded by the `if index.is_none() { return .. }` just above in the same arm";
+    Unreachable "guarded by the `if index.is_none() { return .. }` just above in the same arm"]);
+  (("analysis/event_consumer", "resolve_reference", "assert!", 1%nat),
+   [Site "Analysis.site_assert_target_not_ref" Analysis.site_assert_target_not_ref]);
+  (("analysis/event_consumer", "set_referenced_from", "panic!", 2%nat),
+   [Site "Analysis.site_assert_is_definition" Analysis.site_assert_is_definition;
+    Site "Analysis.site_assert_is_definition" Analysis.site_assert_is_definition]);
+  (("analysis/event_consumer", "time_override_check", "assert!", 1%nat),
+   [Unmodelled "metadata map, standard-key checks and their warnings are dropped by Model/Analysis.v (header: Dropped); exercised by the monitor under catch_unwind only"]);
+  (("analysis/event_consumer", "time_override_check", "call remove", 1%nat),
+   [Unmodelled "metadata map, standard-key checks and their warnings are dropped by Model/Analysis.v (header: Dropped); exercised by the monitor under catch_unwind only"]);
+  (("analysis/event_consumer", "time_override_check", "panic!", 1%nat),
+   [Unmodelled "metadata map, standard-key checks and their warnings are dropped by Model/Analysis.v (header: Dropped); exercised by the monitor under catch_unwind only"]);
+  (("analysis/event_consumer", "time_override_check", "unwrap", 1%nat),
+   [Unmodelled "metadata map, standard-key checks and their warnings are dropped by Model/Analysis.v (header: Dropped); exercised by the monitor under catch_unwind only"]);
+  (("analysis/event_consumer", "timer", "unwrap", 2%nat),
+   [Unreachable "located_* mirrors the component it was built from field by field (Located<..> of the same event): quantity/unit is Some there exactly when the value just matched is Some; the model keeps one record per component, so there is no second Option";
+    Unreachable "located_* mirrors the component it was built from field by field (Located<..> of the same event): quantity/unit is Some there exactly when the value just matched is Some; the model keeps one record per component, so there is no second Option"]);
+  (("text", "append_fragment", "assert!", 1%nat),
+   [Site "PText.site_text_append" PText.site_text_append]);
+  (("text", "span", "unwrap", 2%nat),
+   [Unreachable "arm TextData::Fragmented: that variant is only built by append_fragment from a Single plus one more fragment and never shrinks; the model's text_span matches on the list";
+    Unreachable "arm TextData::Fragmented: that variant is only built by append_fragment from a Single plus one more fragment and never shrinks; the model's text_span matches on the list"]);
+  (("error", "error", "debug_assert_eq!", 1%nat),
+   [Unmodelled "diagnostics buffer and report rendering (src/error.rs) are outside the three models; write_report is run under catch_unwind by the monitor (c04:render)"]);
+  (("error", "into_result", "unwrap", 1%nat),
+   [Unmodelled "diagnostics buffer and report rendering (src/error.rs) are outside the three models; write_report is run under catch_unwind by the monitor (c04:render)"]);
+  (("error", "push", "debug_assert!", 1%nat),
+   [Unmodelled "diagnostics buffer and report rendering (src/error.rs) are outside the three models; write_report is run under catch_unwind by the monitor (c04:render)"]);
+  (("error", "set_severity", "debug_assert!", 1%nat),
+   [Unmodelled "diagnostics buffer and report rendering (src/error.rs) are outside the three models; write_report is run under catch_unwind by the monitor (c04:render)"]);
+  (("error", "unwrap_output", "unwrap", 1%nat),
+   [Unmodelled "diagnostics buffer and report rendering (src/error.rs) are outside the three models; write_report is run under catch_unwind by the monitor (c04:render)"]);
+  (("error", "warn", "debug_assert_eq!", 1%nat),
+   [Unmodelled "diagnostics buffer and report rendering (src/error.rs) are outside the three models; write_report is run under catch_unwind by the monitor (c04:render)"])
+].
+
+(* sites of the models that stand for an index or arithmetic expression of the source (not pinned):
+   (model site, the expressions as of the snapshot [weak_table]) *)
+Definition unpinned_sites : list (string * string) := [
+  ("Parser.site_trim_index", "parser/mod next_block: self.block[end-1] and end - 1");
+  ("Analysis.site_in_text_slice", "analysis/event_consumer in_text: self.input[span.range()]");
+  ("Analysis.site_index_definition",
+   "analysis/event_consumer ingredient / cookware / resolve_reference / set_referenced_from: ..[references_to]");
+  ("Analysis.site_units_index",
+   "analysis/event_consumer ingredient: self.content.ingredients[index], self.locations.ingredients[index]");
+  ("Analysis.site_step_counter_overflow", "analysis/event_consumer parse_events: self.step_counter += 1")
+].
+
+(* sites of the models that stand for no expression of the current source *)
+Definition model_only : list (string * string) := [
+  ("Parser.site_fuel",
+   "model only: the fuel of the model's loops ran out (the Rust loops have no counter); never reached: C03_events_total");
+  ("Parser.site_label_underflow",
+   "the `start - 1` of the note label before the repair of check_note (p_note_label_old); the current code has no subtraction there, the model keeps the guard for the _refuted theorem about the old code");
+  ("Analysis.site_iq_fuel",
+   "model only: the find_iq oracle did not shrink the text (hypothesis iq_shrinks of C03_analyse_total)")
+].
+
+Definition is_site (ms : string * N) (t : treatment) : bool :=
+  match t with
+  | Site nm n => String.eqb nm (fst ms) && N.eqb n (snd ms)
+  | _ => false
+  end.
+Definition named (nm : string) (t : treatment) : bool :=
+  match t with Site nm' _ => String.eqb nm nm' | _ => false end.
+Definition all_treatments : list treatment := flat_map snd group_table.
+
+(* every group has one treatment per site *)
+Definition groups_full : bool :=
+  forallb (fun row => Nat.eqb (List.length (snd row)) (snd (fst row))) group_table.
+
+(* every site of the models is hit by a pinned site, or stands for an unpinned expression, or is model-only *)
+Definition model_sites_accounted : bool :=
+  forallb (fun ms => existsb (is_site ms) all_treatments
+                     || existsb (fun u => String.eqb (fst u) (fst ms)) unpinned_sites
+                     || existsb (fun mo => String.eqb (fst mo) (fst ms)) model_only)
+          PanicSites.model_sites.
+
+(* every [Site] names a site of the models, with the value it has there; the names of [unpinned_sites] and
+   [model_only] exist and are not the image of a pinned site *)
+Definition table_sites_exist : bool :=
+  forallb (fun t => match t with
+                    | Site _ _ => existsb (fun ms => is_site ms t) PanicSites.model_sites
+                    | _ => true
+                    end) all_treatments
+  && forallb (fun nm => existsb (fun ms => String.eqb nm (fst ms)) PanicSites.model_sites
+                        && negb (existsb (named nm) all_treatments))
+             (map fst unpinned_sites ++ map fst model_only).
+
+Definition count_sites : nat :=
+  List.length (filter (fun t => match t with Site _ _ => true | _ => false end) all_treatments).
+Definition count_unreachable : nat :=
+  List.length (filter (fun t => match t with Unreachable _ => true | _ => false end) all_treatments).
+Definition count_unmodelled : nat :=
+  List.length (filter (fun t => match t with Unmodelled _ => true | _ => false end) all_treatments).
+
+(* SNAPSHOT, documentation only (see the header): the index / arithmetic entries of [PanicSites.sites] *)
+Definition weak_table : list (site * treatment) := [
   (("lexer/cursor", "pos_within_token", KArith,
     "self.len_remaining - self.chars.as_str().len()"),
    Unreachable "len_remaining is the length of the rest at the start of the token and chars only shrinks; Model/Lexer.v computes token lengths from the consumed prefix");
-  (("lexer/mod", "line_comment", KMacro,
-    "debug_assert!(self.prev()=='-'&&self.first()=='-')"),
-   Unmodelled "lexer debug assertion about the character just consumed: Model/Lexer.v has no panic outcome (lex_at is total: C03_lexer_total), the assertion restates the dispatch of advance_token; debug builds are exercised by the correspondence and the monitor");
-  (("lexer/mod", "block_comment", KMacro,
-    "debug_assert!(self.prev()=='['&&self.first()=='-')"),
-   Unmodelled "lexer debug assertion about the character just consumed: Model/Lexer.v has no panic outcome (lex_at is total: C03_lexer_total), the assertion restates the dispatch of advance_token; debug builds are exercised by the correspondence and the monitor");
-  (("lexer/mod", "word", KMacro,
-    "debug_assert!(self.pos_within_token()>0)"),
-   Unmodelled "lexer debug assertion about the character just consumed: Model/Lexer.v has no panic outcome (lex_at is total: C03_lexer_total), the assertion restates the dispatch of advance_token; debug builds are exercised by the correspondence and the monitor");
-  (("lexer/mod", "whitespace", KMacro,
-    "debug_assert!(is_whitespace(self.prev()))"),
-   Unmodelled "lexer debug assertion about the character just consumed: Model/Lexer.v has no panic outcome (lex_at is total: C03_lexer_total), the assertion restates the dispatch of advance_token; debug builds are exercised by the correspondence and the monitor");
-  (("lexer/mod", "number", KMacro,
-    "debug_assert!(self.prev().is_ascii_digit())"),
-   Unmodelled "lexer debug assertion about the character just consumed: Model/Lexer.v has no panic outcome (lex_at is total: C03_lexer_total), the assertion restates the dispatch of advance_token; debug builds are exercised by the correspondence and the monitor");
-  (("parser/block_parser", "macro_rules!debug_assert_adjacent", KMacro,
-    "debug_assert!($s.windows(2).all(|w|w[0].span.end()==w[1].span.start()))"),
-   Unreachable "debug_assert_adjacent: the token slices handed to BlockParser are contiguous sub-slices of the lexer's tiling (C04 token adjacency); the model keeps tokens as a list with their spans and does not re-check adjacency");
-  (("parser/block_parser", "macro_rules!debug_assert_adjacent", KCall,
-    "s.windows(2)"),
-   Unreachable "debug_assert_adjacent: the token slices handed to BlockParser are contiguous sub-slices of the lexer's tiling (C04 token adjacency); the model keeps tokens as a list with their spans and does not re-check adjacency");
   (("parser/block_parser", "macro_rules!debug_assert_adjacent", KIndex,
     "w[0]"),
    Unreachable "debug_assert_adjacent: the token slices handed to BlockParser are contiguous sub-slices of the lexer's tiling (C04 token adjacency); the model keeps tokens as a list with their spans and does not re-check adjacency");
   (("parser/block_parser", "macro_rules!debug_assert_adjacent", KIndex,
     "w[1]"),
    Unreachable "debug_assert_adjacent: the token slices handed to BlockParser are contiguous sub-slices of the lexer's tiling (C04 token adjacency); the model keeps tokens as a list with their spans and does not re-check adjacency");
-  (("parser/block_parser", "new", KMacro,
-    "assert!(!tokens.is_empty())"),
-   Site "Parser.site_bp_new" Parser.site_bp_new);
-  (("parser/block_parser", "new", KMacro,
-    "debug_assert!(tokens.first().unwrap().span.start()<input.len()&&tokens.last().unwrap().span.e..."),
-   Unreachable "bounds of the block's tokens: token spans tile the input (C04), first/last exist after the assert! above");
-  (("parser/block_parser", "new", KUnwrap,
-    "tokens.first().unwrap()"),
-   Unreachable "inside the debug_assert! that follows assert!(!tokens.is_empty()) in the same fn");
-  (("parser/block_parser", "new", KUnwrap,
-    "tokens.last().unwrap()"),
-   Unreachable "inside the debug_assert! that follows assert!(!tokens.is_empty()) in the same fn");
-  (("parser/block_parser", "new", KMacro,
-    "debug_assert_adjacent!(tokens)"),
-   Unreachable "debug_assert_adjacent: the token slices handed to BlockParser are contiguous sub-slices of the lexer's tiling (C04 token adjacency); the model keeps tokens as a list with their spans and does not re-check adjacency");
-  (("parser/block_parser", "base_offset", KUnwrap,
-    "self.tokens.first().unwrap()"),
-   Unreachable "BlockParser::new asserted a non-empty token slice (site_bp_new) and tokens is never reassigned");
-  (("parser/block_parser", "finish", KMacro,
-    "assert_eq!(self.current, self.tokens.len())"),
-   Site "Parser.site_bp_finish" Parser.site_bp_finish);
   (("parser/block_parser", "capture_slice", KIndex,
     "self.tokens[start..end]"),
    Unreachable "start and end are two readings of self.current, which only grows and is bounded by tokens.len(); the model returns the consumed tokens as a list");
   (("parser/block_parser", "token_str", KIndex,
     "self.input[token.span.range()]"),
    Unreachable "slice of the input at token spans: the model carries the text of every token (tstr) instead of slicing; token spans are in bounds and on char boundaries (C04 lexer theorems)");
-  (("parser/block_parser", "slice_str", KMacro,
-    "debug_assert_adjacent!(s)"),
-   Unreachable "debug_assert_adjacent: the token slices handed to BlockParser are contiguous sub-slices of the lexer's tiling (C04 token adjacency); the model keeps tokens as a list with their spans and does not re-check adjacency");
-  (("parser/block_parser", "slice_str", KUnwrap,
-    "s.first().unwrap()"),
-   Unreachable "guarded by the is_empty return just above in the same fn");
-  (("parser/block_parser", "slice_str", KUnwrap,
-    "s.last().unwrap()"),
-   Unreachable "guarded by the is_empty return just above in the same fn");
   (("parser/block_parser", "slice_str", KIndex,
     "self.input[start..end]"),
    Unreachable "slice of the input at token spans: the model carries the text of every token (tstr) instead of slicing; token spans are in bounds and on char boundaries (C04 lexer theorems)");
-  (("parser/block_parser", "text", KMacro,
-    "debug_assert_adjacent!(tokens)"),
-   Unreachable "debug_assert_adjacent: the token slices handed to BlockParser are contiguous sub-slices of the lexer's tiling (C04 token adjacency); the model keeps tokens as a list with their spans and does not re-check adjacency");
   (("parser/block_parser", "text", KIndex,
     "tokens[0]"),
    Unreachable "guarded by the is_empty return just above in the same fn (text_of matches on the list)");
-  (("parser/block_parser", "text", KMacro,
-    "assert_eq!(offset, start)"),
-   Site "Parser.site_text_offset" Parser.site_text_offset);
   (("parser/block_parser", "text", KIndex,
     "tokens[0]"),
    Unreachable "guarded by the is_empty return just above in the same fn (text_of matches on the list)");
@@ -134,33 +340,18 @@ Definition panic_table : list (site * treatment) := [
   (("parser/block_parser", "text", KIndex,
     "self.input[start..end]"),
    Unreachable "slice of the input at token spans: the model carries the text of every token (tstr) instead of slicing; token spans are in bounds and on char boundaries (C04 lexer theorems)");
-  (("parser/block_parser", "text", KMacro,
-    "debug_assert!(self.input[token.span.range()].starts_with('\\'))"),
-   Site "Parser.site_escaped_len" Parser.site_escaped_len);
   (("parser/block_parser", "text", KIndex,
     "self.input[token.span.range()]"),
    Unreachable "slice of the input at token spans: the model carries the text of every token (tstr) instead of slicing; token spans are in bounds and on char boundaries (C04 lexer theorems)");
   (("parser/block_parser", "text", KIndex,
     "self.input[start..end]"),
    Unreachable "slice of the input at token spans: the model carries the text of every token (tstr) instead of slicing; token spans are in bounds and on char boundaries (C04 lexer theorems)");
-  (("parser/block_parser", "parsed", KCall,
-    "self.tokens.split_at(self.current)"),
-   Unreachable "split_at(self.current): current <= tokens.len() is the invariant of next_token/until/consume_while/consume_rest; the model state holds the rest of the list (b_rest)");
-  (("parser/block_parser", "rest", KCall,
-    "self.tokens.split_at(self.current)"),
-   Unreachable "split_at(self.current): current <= tokens.len() is the invariant of next_token/until/consume_while/consume_rest; the model state holds the rest of the list (b_rest)");
   (("parser/block_parser", "consume_rest", KArith,
     "self.current += r.len()"),
    Unreachable "current grows by the number of tokens taken from rest(): bounded by tokens.len() <= input length, no usize overflow; the model has no counter (b_rest)");
   (("parser/block_parser", "next_token", KArith,
     "self.current += 1"),
    Unreachable "current grows by the number of tokens taken from rest(): bounded by tokens.len() <= input length, no usize overflow; the model has no counter (b_rest)");
-  (("parser/block_parser", "bump_any", KExpect,
-    "self.next_token().expect()"),
-   Site "Parser.site_bump_any" Parser.site_bump_any);
-  (("parser/block_parser", "bump", KMacro,
-    "assert_eq!(token.kind, expected)"),
-   Site "Parser.site_bump" Parser.site_bump);
   (("parser/block_parser", "until", KIndex,
     "rest[..pos]"),
    Unreachable "pos comes from position() over rest or is rest.len(): in bounds; the model splits the list (until / consume_while)");
@@ -173,12 +364,6 @@ Definition panic_table : list (site * treatment) := [
   (("parser/block_parser", "consume_while", KArith,
     "self.current += pos"),
    Unreachable "current grows by the number of tokens taken from rest(): bounded by tokens.len() <= input length, no usize overflow; the model has no counter (b_rest)");
-  (("parser/block_parser", "error", KMacro,
-    "debug_assert!(error.is_error())"),
-   Unreachable "every caller passes a diagnostic built by error!(..) (severity Error); the model keeps errors and warnings in one event list by code");
-  (("parser/block_parser", "warn", KMacro,
-    "debug_assert!(warn.is_warning())"),
-   Unreachable "every caller passes a diagnostic built by warning!(..); the model keeps errors and warnings in one event list by code");
   (("parser/frontmatter", "parse_frontmatter", KIndex,
     "input[..fence_start]"),
    Unreachable "offsets returned by fences(): starts/ends of lines of the input, hence char boundaries in bounds; Model/Parser.v splits the character list at the fence lines (Proofs/ParserFM.v)");
@@ -203,78 +388,18 @@ Definition panic_table : list (site * treatment) := [
   (("parser/mod", "next_block", KIndex,
     "self.block[start..end]"),
    Unreachable "start <= end <= block.len(): both are readings of self.block.len() and the loop only lowers end down to start; the model trims the list");
-  (("parser/mod", "parse_block", KMacro,
-    "unreachable!()"),
-   Unreachable "let-else on the event metadata_entry just built: it only returns Event::Metadata; the model's metadata_entry returns the key/value pair directly");
-  (("parser/mod", "parse_multiline_block", KMacro,
-    "debug_assert!(bp.tokens().last().map(|t|t.kind!=T![newline]).unwrap_or(true))"),
-   Unreachable "the block splitter trims trailing newline tokens (next_block) before the block parser sees them: Proofs/ParserSplit.v; the model does not re-check");
-  (("parser/mod", "tokens_span", KMacro,
-    "debug_assert!(!tokens.is_empty())"),
-   Unreachable "tokens_span is only called on bp.tokens() / non-empty consumed slices (site_bp_new guarantees a non-empty block); the model computes spans from non-empty lists, the empty case is a match arm returning the offset");
-  (("parser/mod", "tokens_span", KUnwrap,
-    "tokens.first().unwrap()"),
-   Unreachable "tokens_span is only called on bp.tokens() / non-empty consumed slices (site_bp_new guarantees a non-empty block); the model computes spans from non-empty lists, the empty case is a match arm returning the offset");
-  (("parser/mod", "tokens_span", KUnwrap,
-    "tokens.last().unwrap()"),
-   Unreachable "tokens_span is only called on bp.tokens() / non-empty consumed slices (site_bp_new guarantees a non-empty block); the model computes spans from non-empty lists, the empty case is a match arm returning the offset");
-  (("parser/quantity", "parse_quantity", KMacro,
-    "assert!(!tokens.is_empty())"),
-   Site "Parser.site_qty_empty" Parser.site_qty_empty);
-  (("parser/quantity", "parse_regular_quantity", KUnwrap,
-    "unit_separator.unwrap()"),
-   Unreachable "unit_separator and unit come from the same Option by unzip(): Some together, and this is inside `if let Some(unit_text) = &unit`");
-  (("parser/quantity", "parse_advanced_quantity", KUnwrap,
-    "value_tokens.last().unwrap()"),
-   Unreachable "right operand of `is_empty() ||`: the slice is non-empty");
-  (("parser/quantity", "parse_advanced_quantity", KUnwrap,
-    "value_tokens.iter().rposition(|t|!matches!(t.kind, T![ws]|T![block comment])).unwrap()"),
-   Site "Parser.site_adv_rposition" Parser.site_adv_rposition);
   (("parser/quantity", "parse_advanced_quantity", KIndex,
     "value_tokens[..=end_pos]"),
    Unreachable "end_pos is a position of the slice (rposition): ..=end_pos is in bounds");
-  (("parser/quantity", "parse_advanced_quantity", KUnwrap,
-    "value_tokens.first().unwrap()"),
-   Unreachable "value_tokens[..=end_pos] has at least one element");
-  (("parser/quantity", "parse_advanced_quantity", KUnwrap,
-    "value_tokens.last().unwrap()"),
-   Unreachable "right operand of `is_empty() ||`: the slice is non-empty");
-  (("parser/quantity", "parse_advanced_quantity", KUnwrap,
-    "unit_tokens.first().unwrap()"),
-   Unreachable "guarded by the `unit_tokens.is_empty()` return above in the same fn");
-  (("parser/quantity", "range_value", KCall,
-    "tokens.split_at(mid)"),
-   Unreachable "mid is a position of tokens (position()?): split_at(mid) is in bounds");
-  (("parser/quantity", "range_value", KUnwrap,
-    "end.split_first().unwrap()"),
-   Unreachable "end starts at the `-` token found by position(): non-empty");
-  (("parser/quantity", "macro_rules!unwrap_numeric", KMacro,
-    "unreachable!(<str>)"),
-   Unreachable "numeric_value returns Some(r.map(Value::Number)): an Ok is always Value::Number; the model's numeric_value returns a number");
   (("parser/quantity", "trim_tokens", KIndex,
     "s[0..0]"),
    Unreachable "the empty range 0..0 is in bounds of any slice");
-  (("parser/quantity", "trim_tokens", KUnwrap,
-    "s.iter().rposition(not_ws_comment).unwrap()"),
-   Unreachable "position() found an element satisfying the same predicate, so rposition() does too");
   (("parser/quantity", "trim_tokens", KIndex,
     "s[from..=to]"),
    Unreachable "from and to are positions of s with from <= to (first and last match of one predicate)");
-  (("parser/quantity", "mixed_num", KMacro,
-    "unreachable!()"),
-   Unreachable "frac() only builds Number::Fraction; the model's frac returns numerator and denominator");
-  (("parser/quantity", "int", KMacro,
-    "assert_eq!(tok.kind, T![int])"),
-   Unreachable "int() is called from numeric_value's match arms on slices whose pattern fixes the kind T![int]; the model matches on the kind in the same place");
   (("parser/step", "modifiers", KIndex,
     "bp.tokens()[start..bp.current]"),
    Unreachable "start is an earlier reading of bp.current, which only grows and stays <= tokens.len()");
-  (("parser/step", "parse_modifiers", KMacro,
-    "panic!(<str>)"),
-   Site "Parser.site_mod_token" Parser.site_mod_token);
-  (("parser/step", "parse_intermediate_ref_data", KExpect,
-    "tokens.position(|t|t.kind==T![')']).expect()"),
-   Site "Parser.site_inter_paren" Parser.site_inter_paren);
   (("parser/step", "parse_intermediate_ref_data", KIndex,
     "slice[..=end_pos]"),
    Unreachable "end_pos is a position in the iterator over the same slice");
@@ -284,177 +409,54 @@ Definition panic_table : list (site * treatment) := [
   (("parser/step", "parse_intermediate_ref_data", KArith,
     "slice.len() - 1"),
    Unreachable "slice has at least the two parentheses: len() >= 2");
-  (("parser/step", "parse_alias", KCall,
-    "tokens.split_at(alias_sep)"),
-   Unreachable "alias_sep is a position of tokens (position())");
-  (("parser/step", "parse_alias", KUnwrap,
-    "alias_tokens.split_first().unwrap()"),
-   Unreachable "alias_tokens starts at the `|` token found by position(): non-empty");
-  (("parser/step", "cookware", KExpect,
-    "modifiers_tokens.iter().find(|t|t.kind==T![@]).map(|t|t.span).expect()"),
-   Site "Parser.site_recipe_tok" Parser.site_recipe_tok);
-  (("parser/step", "check_modifiers", KMacro,
-    "assert_ne!(container, INGREDIENT)"),
-   Unreachable "container is a &'static str constant at every call site: timer() passes TIMER, cookware() passes COOKWARE only to functions that do not assert it; the model has one function per container");
-  (("parser/step", "check_modifiers", KMacro,
-    "assert_ne!(container, COOKWARE)"),
-   Unreachable "container is a &'static str constant at every call site: timer() passes TIMER, cookware() passes COOKWARE only to functions that do not assert it; the model has one function per container");
-  (("parser/step", "check_intermediate_data", KMacro,
-    "assert_ne!(container, INGREDIENT)"),
-   Unreachable "container is a &'static str constant at every call site: timer() passes TIMER, cookware() passes COOKWARE only to functions that do not assert it; the model has one function per container");
-  (("parser/step", "check_alias", KMacro,
-    "assert_ne!(container, INGREDIENT)"),
-   Unreachable "container is a &'static str constant at every call site: timer() passes TIMER, cookware() passes COOKWARE only to functions that do not assert it; the model has one function per container");
-  (("parser/step", "check_alias", KMacro,
-    "assert_ne!(container, COOKWARE)"),
-   Unreachable "container is a &'static str constant at every call site: timer() passes TIMER, cookware() passes COOKWARE only to functions that do not assert it; the model has one function per container");
   (("parser/step", "check_alias", KIndex,
     "name_tokens[sep]"),
    Unreachable "sep is a position of name_tokens (position())");
-  (("parser/step", "check_alias", KUnwrap,
-    "name_tokens.last().unwrap()"),
-   Unreachable "name_tokens holds the element at sep: non-empty");
-  (("parser/step", "check_note", KMacro,
-    "assert_ne!(container, INGREDIENT)"),
-   Unreachable "container is a &'static str constant at every call site: timer() passes TIMER, cookware() passes COOKWARE only to functions that do not assert it; the model has one function per container");
-  (("parser/step", "check_note", KMacro,
-    "assert_ne!(container, COOKWARE)"),
-   Unreachable "container is a &'static str constant at every call site: timer() passes TIMER, cookware() passes COOKWARE only to functions that do not assert it; the model has one function per container");
-  (("parser/step", "check_note", KMacro,
-    "assert!(bp.with_recover(|bp|{let start=bp.consume(T!['('])?.span.start();let _=bp.until(|t|t=..."),
-   Unreachable "the closure passed to with_recover ends in None::<()> on every path: with_recover returns it; inside it bump(T![')']) is Parser.site_bump (Model/Parser.v check_note)");
   (("parser/token_stream", "offset", KArith,
     "self.consumed += offset"),
    Unreachable "consumed is the byte offset into the input: sum of token lengths <= input.len(); Model/Lexer.v carries the offset as an unbounded N");
   (("parser/token_stream", "next", KArith,
     "self.consumed += t.len as usize"),
    Unreachable "consumed is the byte offset into the input: sum of token lengths <= input.len(); Model/Lexer.v carries the offset as an unbounded N");
-  (("analysis/event_consumer", "parse_events", KMacro,
-    "assert_eq!(kind, BlockKind::Step)"),
-   Site "Analysis.site_end_kind_step" Analysis.site_end_kind_step);
-  (("analysis/event_consumer", "parse_events", KMacro,
-    "assert!(kind==BlockKind::Text||self.define_mode==DefineMode::Text)"),
-   Site "Analysis.site_end_kind_text" Analysis.site_end_kind_text);
-  (("analysis/event_consumer", "parse_events", KMacro,
-    "panic!(<str>)"),
-   Site "Analysis.site_end_without_start" Analysis.site_end_without_start);
   (("analysis/event_consumer", "parse_events", KArith,
     "self.step_counter += 1"),
    Site "Analysis.site_step_counter_overflow" Analysis.site_step_counter_overflow);
-  (("analysis/event_consumer", "parse_events", KMacro,
-    "panic!(<str>)"),
-   Site "Analysis.site_content_outside_block" Analysis.site_content_outside_block);
-  (("analysis/event_consumer", "process_frontmatter", KUnwrap,
-    "key.as_str().unwrap()"),
-   Unmodelled "metadata map, standard-key checks and their warnings are dropped by Model/Analysis.v (header: Dropped); exercised by the monitor under catch_unwind only");
   (("analysis/event_consumer", "metadata", KIndex,
     "key_t[1..key_t.len()-1]"),
    Unmodelled "metadata map, standard-key checks and their warnings are dropped by Model/Analysis.v (header: Dropped); exercised by the monitor under catch_unwind only");
   (("analysis/event_consumer", "metadata", KArith,
     "key_t.len() - 1"),
    Unmodelled "metadata map, standard-key checks and their warnings are dropped by Model/Analysis.v (header: Dropped); exercised by the monitor under catch_unwind only");
-  (("analysis/event_consumer", "metadata", KCall,
-    "self.content.metadata.map.insert(serde_yaml::Value::String(key_t.into_owned()), serde_yaml::V..."),
-   Unmodelled "metadata map, standard-key checks and their warnings are dropped by Model/Analysis.v (header: Dropped); exercised by the monitor under catch_unwind only");
-  (("analysis/event_consumer", "metadata", KCall,
-    "self.content.metadata.map.insert(yaml_key, yaml_value)"),
-   Unmodelled "metadata map, standard-key checks and their warnings are dropped by Model/Analysis.v (header: Dropped); exercised by the monitor under catch_unwind only");
-  (("analysis/event_consumer", "metadata", KUnwrap,
-    "self.content.metadata.map.get(key_t.as_ref()).unwrap()"),
-   Unmodelled "metadata map, standard-key checks and their warnings are dropped by Model/Analysis.v (header: Dropped); exercised by the monitor under catch_unwind only");
-  (("analysis/event_consumer", "metadata", KCall,
-    "self.locations.metadata.insert(sp_key, (key.clone(), value.clone()))"),
-   Unmodelled "metadata map, standard-key checks and their warnings are dropped by Model/Analysis.v (header: Dropped); exercised by the monitor under catch_unwind only");
-  (("analysis/event_consumer", "time_override_check", KMacro,
-    "assert!(!keys.is_empty())"),
-   Unmodelled "metadata map, standard-key checks and their warnings are dropped by Model/Analysis.v (header: Dropped); exercised by the monitor under catch_unwind only");
   (("analysis/event_consumer", "time_override_check", KIndex,
     "locs(&[new])[0]"),
    Unmodelled "metadata map, standard-key checks and their warnings are dropped by Model/Analysis.v (header: Dropped); exercised by the monitor under catch_unwind only");
-  (("analysis/event_consumer", "time_override_check", KMacro,
-    "panic!(<str>)"),
-   Unmodelled "metadata map, standard-key checks and their warnings are dropped by Model/Analysis.v (header: Dropped); exercised by the monitor under catch_unwind only");
-  (("analysis/event_consumer", "time_override_check", KCall,
-    "self.locations.metadata.remove(k)"),
-   Unmodelled "metadata map, standard-key checks and their warnings are dropped by Model/Analysis.v (header: Dropped); exercised by the monitor under catch_unwind only");
-  (("analysis/event_consumer", "time_override_check", KUnwrap,
-    "overriden.next().unwrap()"),
-   Unmodelled "metadata map, standard-key checks and their warnings are dropped by Model/Analysis.v (header: Dropped); exercised by the monitor under catch_unwind only");
-  (("analysis/event_consumer", "in_step", KMacro,
-    "panic!(<str>)"),
-   Site "Analysis.Panic_547" 547%N);
-  (("analysis/event_consumer", "in_text", KMacro,
-    "assert_eq!(self.define_mode, DefineMode::Text)"),
-   Site "Analysis.site_nontext_in_text" Analysis.site_nontext_in_text);
-  (("analysis/event_consumer", "in_text", KMacro,
-    "unreachable!()"),
-   Unreachable "inner match on the same ev inside the arm `Ingredient | Cookware | Timer`: the model's comp takes the span of the three cases directly");
   (("analysis/event_consumer", "in_text", KIndex,
     "self.input[span.range()]"),
    Site "Analysis.site_in_text_slice" Analysis.site_in_text_slice);
   (("analysis/event_consumer", "in_text", KIndex,
     "src[pos..end]"),
    Unreachable "pos..end are the token boundaries the lexer cursor reports for src: a tiling of src (C04 lexer theorems); the model strips comments on the character list (strip_comments)");
-  (("analysis/event_consumer", "in_text", KMacro,
-    "panic!(<str>)"),
-   Site "Analysis.Panic_572" 572%N);
-  (("analysis/event_consumer", "ingredient", KMacro,
-    "assert!(new_igr.modifiers().contains(Modifiers::REF))"),
-   Site "Analysis.site_inter_without_ref" Analysis.site_inter_without_ref);
-  (("analysis/event_consumer", "ingredient", KMacro,
-    "assert!(ingredient.intermediate_data.is_none())"),
-   Unreachable "else-branch of `if let Some(inter_data) = ingredient.intermediate_data`: it is None here (the model matches on it once)");
   (("analysis/event_consumer", "ingredient", KIndex,
     "self.content.ingredients[references_to]"),
    Site "Analysis.site_index_definition" Analysis.site_index_definition);
   (("analysis/event_consumer", "ingredient", KIndex,
     "self.locations.ingredients[references_to]"),
    Site "Analysis.site_index_definition" Analysis.site_index_definition);
-  (("analysis/event_consumer", "ingredient", KMacro,
-    "assert!(definition.relation.is_definition())"),
-   Site "Analysis.site_assert_is_definition" Analysis.site_assert_is_definition);
   (("analysis/event_consumer", "ingredient", KIndex,
     "self.content.ingredients[index]"),
    Site "Analysis.site_units_index" Analysis.site_units_index);
   (("analysis/event_consumer", "ingredient", KIndex,
     "self.locations.ingredients[index]"),
    Site "Analysis.site_units_index" Analysis.site_units_index);
-  (("analysis/event_consumer", "ingredient", KUnwrap,
-    "self.locations.ingredients[index].quantity.as_ref().unwrap()"),
-   Unreachable "locations.ingredients[index].quantity is Some exactly when content.ingredients[index].quantity is (filter_map above kept only those); the two tables are pushed together");
-  (("analysis/event_consumer", "ingredient", KUnwrap,
-    "located_ingredient.quantity.as_ref().unwrap()"),
-   Unreachable "located_* mirrors the component it was built from field by field (Located<..> of the same event): quantity/unit is Some there exactly when the value just matched is Some; the model keeps one record per component, so there is no second Option");
-  (("analysis/event_consumer", "ingredient", KExpect,
-    "definition.relation.is_defined_in_step().expect()"),
-   Unreachable "is_defined_in_step() is Some for a definition, and assert!(definition.relation.is_definition()) (site_assert_is_definition) precedes it in the same branch");
-  (("analysis/event_consumer", "ingredient", KUnwrap,
-    "ingredient.quantity.unwrap()"),
-   Unreachable "second operand of `ingredient.quantity.is_some() && ..` in the same condition");
-  (("analysis/event_consumer", "ingredient", KUnwrap,
-    "located_ingredient.quantity.as_ref().unwrap()"),
-   Unreachable "located_* mirrors the component it was built from field by field (Located<..> of the same event): quantity/unit is Some there exactly when the value just matched is Some; the model keeps one record per component, so there is no second Option");
-  (("analysis/event_consumer", "ingredient", KUnwrap,
-    "definition_location.quantity.as_ref().unwrap()"),
-   Unreachable "inside `if let Some((ref_q, def_q)) = new_igr.quantity.zip(definition.quantity)`: the definition has a quantity and its location record mirrors it");
   (("analysis/event_consumer", "ingredient", KArith,
     "self.content.ingredients.len() - 1"),
    Unreachable "len() - 1 right after a push: the vector is non-empty; the model returns length l of the list before the push");
-  (("analysis/event_consumer", "resolve_intermediate_ref", KMacro,
-    "assert!(!inter_data.val.is_negative())"),
-   Site "Analysis.site_inter_negative" Analysis.site_inter_negative);
   (("analysis/event_consumer", "resolve_intermediate_ref", KArith,
     "val - 1"),
    Unreachable "val is a u32 and the `if val == 0 { return Err(..) }` block above returns on both modes: val >= 1 here; the model computes on Z");
-  (("analysis/event_consumer", "resolve_intermediate_ref", KUnwrap,
-    "index.unwrap()"),
-   Unreachable "guarded by the `if index.is_none() { return .. }` just above in the same arm");
   (("analysis/event_consumer", "resolve_intermediate_ref", KArith,
     "val - 1"),
    Unreachable "val is a u32 and the `if val == 0 { return Err(..) }` block above returns on both modes: val >= 1 here; the model computes on Z");
-  (("analysis/event_consumer", "resolve_intermediate_ref", KUnwrap,
-    "index.unwrap()"),
-   Unreachable "guarded by the `if index.is_none() { return .. }` just above in the same arm");
   (("analysis/event_consumer", "resolve_intermediate_ref", KArith,
     "val - 1"),
    Unreachable "val is a u32 and the `if val == 0 { return Err(..) }` block above returns on both modes: val >= 1 here; the model computes on Z");
@@ -464,51 +466,21 @@ Definition panic_table : list (site * treatment) := [
   (("analysis/event_consumer", "cookware", KIndex,
     "self.locations.cookware[references_to]"),
    Site "Analysis.site_index_definition" Analysis.site_index_definition);
-  (("analysis/event_consumer", "cookware", KMacro,
-    "assert!(definition.relation.is_definition())"),
-   Site "Analysis.site_assert_is_definition" Analysis.site_assert_is_definition);
-  (("analysis/event_consumer", "cookware", KExpect,
-    "definition.relation.is_defined_in_step().expect()"),
-   Unreachable "is_defined_in_step() is Some for a definition, and assert!(definition.relation.is_definition()) precedes it in the same branch");
-  (("analysis/event_consumer", "cookware", KUnwrap,
-    "located_cookware.quantity.as_ref().unwrap()"),
-   Unreachable "located_* mirrors the component it was built from field by field (Located<..> of the same event): quantity/unit is Some there exactly when the value just matched is Some; the model keeps one record per component, so there is no second Option");
-  (("analysis/event_consumer", "cookware", KUnwrap,
-    "located_cookware.quantity.as_ref().unwrap()"),
-   Unreachable "located_* mirrors the component it was built from field by field (Located<..> of the same event): quantity/unit is Some there exactly when the value just matched is Some; the model keeps one record per component, so there is no second Option");
-  (("analysis/event_consumer", "cookware", KUnwrap,
-    "definition_location.quantity.as_ref().unwrap()"),
-   Unreachable "inside the `if let Some(..) = ..zip(definition.quantity)`: the definition has a quantity and its location record mirrors it");
   (("analysis/event_consumer", "cookware", KArith,
     "self.content.cookware.len() - 1"),
    Unreachable "len() - 1 right after a push: the vector is non-empty; the model returns length l of the list before the push");
-  (("analysis/event_consumer", "timer", KUnwrap,
-    "located_timer.quantity.as_ref().unwrap()"),
-   Unreachable "located_* mirrors the component it was built from field by field (Located<..> of the same event): quantity/unit is Some there exactly when the value just matched is Some; the model keeps one record per component, so there is no second Option");
-  (("analysis/event_consumer", "timer", KUnwrap,
-    "located_quantity.unit.as_ref().unwrap()"),
-   Unreachable "located_* mirrors the component it was built from field by field (Located<..> of the same event): quantity/unit is Some there exactly when the value just matched is Some; the model keeps one record per component, so there is no second Option");
   (("analysis/event_consumer", "timer", KArith,
     "self.content.timers.len() - 1"),
    Unreachable "len() - 1 right after a push: the vector is non-empty; the model returns length l of the list before the push");
   (("analysis/event_consumer", "resolve_reference", KIndex,
     "all[references_to]"),
    Site "Analysis.site_index_definition" Analysis.site_index_definition);
-  (("analysis/event_consumer", "resolve_reference", KMacro,
-    "assert!(!referenced.modifiers().contains(Modifiers::REF))"),
-   Site "Analysis.site_assert_target_not_ref" Analysis.site_assert_target_not_ref);
   (("analysis/event_consumer", "set_referenced_from", KIndex,
     "all[references_to]"),
    Site "Analysis.site_index_definition" Analysis.site_index_definition);
-  (("analysis/event_consumer", "set_referenced_from", KMacro,
-    "panic!(<str>)"),
-   Site "Analysis.site_assert_is_definition" Analysis.site_assert_is_definition);
   (("analysis/event_consumer", "set_referenced_from", KIndex,
     "all[references_to]"),
    Site "Analysis.site_index_definition" Analysis.site_index_definition);
-  (("analysis/event_consumer", "set_referenced_from", KMacro,
-    "panic!(<str>)"),
-   Site "Analysis.site_assert_is_definition" Analysis.site_assert_is_definition);
   (("analysis/event_consumer", "eat_word", KIndex,
     "text[*i..]"),
    Unmodelled "find_inline_quantity and its helpers are the oracle find_iq of Model/Analysis.v (hypothesis iq_shrinks); exercised by the correspondence of C06 and the monitor only");
@@ -548,12 +520,6 @@ Definition panic_table : list (site * treatment) := [
   (("analysis/event_consumer", "find_inline_quantity", KIndex,
     "text[..i]"),
    Unmodelled "find_inline_quantity and its helpers are the oracle find_iq of Model/Analysis.v (hypothesis iq_shrinks); exercised by the correspondence of C06 and the monitor only");
-  (("analysis/event_consumer", "find_inline_quantity", KCall,
-    "w1.split_at(mid)"),
-   Unmodelled "find_inline_quantity and its helpers are the oracle find_iq of Model/Analysis.v (hypothesis iq_shrinks); exercised by the correspondence of C06 and the monitor only");
-  (("analysis/event_consumer", "find_inline_quantity", KMacro,
-    "debug_assert!(prev<i)"),
-   Unmodelled "find_inline_quantity and its helpers are the oracle find_iq of Model/Analysis.v (hypothesis iq_shrinks); exercised by the correspondence of C06 and the monitor only");
   (("analysis/event_consumer", "find_inline_quantity", KIndex,
     "text[i..]"),
    Unmodelled "find_inline_quantity and its helpers are the oracle find_iq of Model/Analysis.v (hypothesis iq_shrinks); exercised by the correspondence of C06 and the monitor only");
@@ -563,18 +529,6 @@ Definition panic_table : list (site * treatment) := [
   (("analysis/event_consumer", "yaml_find_key_position", KIndex,
     "k[start..]"),
    Unmodelled "yaml_find_key_position locates a key for a warning label; warnings are dropped by Model/Analysis.v (modelled separately for C04: checks/c04_labels.py); monitor only");
-  (("analysis/event_consumer", "parse_reference", KUnwrap,
-    "components.pop().unwrap()"),
-   Unreachable "the name starts with ./ or ../ (or the backslash forms, replaced by /): split('/') yields at least two items, one is left after skip(1); the model splits the same way");
-  (("text", "span", KUnwrap,
-    "fragments.first().unwrap()"),
-   Unreachable "arm TextData::Fragmented: that variant is only built by append_fragment from a Single plus one more fragment and never shrinks; the model's text_span matches on the list");
-  (("text", "span", KUnwrap,
-    "fragments.last().unwrap()"),
-   Unreachable "arm TextData::Fragmented: that variant is only built by append_fragment from a Single plus one more fragment and never shrinks; the model's text_span matches on the list");
-  (("text", "append_fragment", KMacro,
-    "assert!(self.span().end()<=fragment.offset)"),
-   Site "PText.site_text_append" PText.site_text_append);
   (("text", "text", KArith,
     "s += text"),
    Unreachable "`s += text` on a Cow<str>: string concatenation, not integer arithmetic (listed by the token-level over-approximation)");
@@ -584,24 +538,6 @@ Definition panic_table : list (site * treatment) := [
   (("span", "len", KArith,
     "self.end - self.start"),
    Unreachable "Span::new keeps start <= end for every span the parser builds (C04_event_spans_ok: span_ok); the models compute on unbounded N");
-  (("error", "push", KMacro,
-    "debug_assert!(self.severity.is_none()||self.severity.is_some_and(|s|err.severity==s))"),
-   Unmodelled "diagnostics buffer and report rendering (src/error.rs) are outside the three models; write_report is run under catch_unwind by the monitor (c04:render)");
-  (("error", "error", KMacro,
-    "debug_assert_eq!(w.severity, Severity::Error)"),
-   Unmodelled "diagnostics buffer and report rendering (src/error.rs) are outside the three models; write_report is run under catch_unwind by the monitor (c04:render)");
-  (("error", "warn", KMacro,
-    "debug_assert_eq!(w.severity, Severity::Warning)"),
-   Unmodelled "diagnostics buffer and report rendering (src/error.rs) are outside the three models; write_report is run under catch_unwind by the monitor (c04:render)");
-  (("error", "set_severity", KMacro,
-    "debug_assert!(severity.is_none()||severity.is_some_and(|s|self.buf.iter().all(|e|e.severity==..."),
-   Unmodelled "diagnostics buffer and report rendering (src/error.rs) are outside the three models; write_report is run under catch_unwind by the monitor (c04:render)");
-  (("error", "into_result", KUnwrap,
-    "self.output.unwrap()"),
-   Unmodelled "diagnostics buffer and report rendering (src/error.rs) are outside the three models; write_report is run under catch_unwind by the monitor (c04:render)");
-  (("error", "unwrap_output", KUnwrap,
-    "self.output.unwrap()"),
-   Unmodelled "diagnostics buffer and report rendering (src/error.rs) are outside the three models; write_report is run under catch_unwind by the monitor (c04:render)");
   (("error", "next", KIndex,
     "Self::COLORS[self.0]"),
    Unmodelled "diagnostics buffer and report rendering (src/error.rs) are outside the three models; write_report is run under catch_unwind by the monitor (c04:render)");
@@ -615,45 +551,3 @@ Definition panic_table : list (site * treatment) := [
     "core::cmp::max(w, 1) - sub"),
    Unmodelled "diagnostics buffer and report rendering (src/error.rs) are outside the three models; write_report is run under catch_unwind by the monitor (c04:render)")
 ].
-
-(* sites of the models that stand for no expression of the current source *)
-Definition model_only : list (string * string) := [
-  ("Parser.site_fuel",
-   "model only: the fuel of the model's loops ran out (the Rust loops have no counter); never reached: C03_events_total");
-  ("Parser.site_label_underflow",
-   "the `start - 1` of the note label before the repair of check_note (p_note_label_old); the current code has no subtraction there, the model keeps the guard for the _refuted theorem about the old code");
-  ("Analysis.site_iq_fuel",
-   "model only: the find_iq oracle did not shrink the text (hypothesis iq_shrinks of C03_analyse_total)")
-].
-
-Definition is_site (ms : string * N) (t : treatment) : bool :=
-  match t with
-  | Site nm n => String.eqb nm (fst ms) && N.eqb n (snd ms)
-  | _ => false
-  end.
-
-(* every site of the models is hit by the table or declared model-only *)
-Definition model_sites_accounted : bool :=
-  forallb (fun ms => existsb (fun row => is_site ms (snd row)) panic_table
-                     || existsb (fun mo => String.eqb (fst mo) (fst ms)) model_only)
-          PanicSites.model_sites.
-
-(* every [Site] row names a site of the models, with the value it has there; every model-only name exists
-   and is not the image of a row *)
-Definition table_sites_exist : bool :=
-  forallb (fun row => match snd row with
-                      | Site _ _ => existsb (fun ms => is_site ms (snd row)) PanicSites.model_sites
-                      | _ => true
-                      end) panic_table
-  && forallb (fun mo => existsb (fun ms => String.eqb (fst mo) (fst ms)) PanicSites.model_sites
-                        && negb (existsb (fun row => match snd row with
-                                                     | Site nm _ => String.eqb nm (fst mo)
-                                                     | _ => false
-                                                     end) panic_table)) model_only.
-
-Definition count_sites : nat :=
-  List.length (filter (fun row => match snd row with Site _ _ => true | _ => false end) panic_table).
-Definition count_unreachable : nat :=
-  List.length (filter (fun row => match snd row with Unreachable _ => true | _ => false end) panic_table).
-Definition count_unmodelled : nat :=
-  List.length (filter (fun row => match snd row with Unmodelled _ => true | _ => false end) panic_table).
